@@ -68,6 +68,13 @@ class Env:
         e.side = self.side            # shared
         e.helpers = self.helpers
         e.methods = self.methods
+        if not hasattr(self, "_memo"):
+            self._memo = {}
+        e._memo = self._memo
+        if not hasattr(self, "_defs"):
+            self._defs = {}
+        e._defs = self._defs
+        e.abs_slack = getattr(self, "abs_slack", None)
         e.opaque = self.opaque
         e._counter = self._counter if hasattr(self, "_counter") else [0]
         return e
@@ -80,14 +87,40 @@ class Env:
         return z3.Real(n) if sort == "real" else (z3.Int(n) if sort == "int" else z3.Bool(n))
 
     # ---------------------------------------------------------------- rounding
-    def rnd(self, exact, ty):
+    def define(self, var, formula):
+        """an assumption that only constrains the fresh variable `var` (a rounding error, a contract result): it is
+        dropped from queries in which `var` plays no role (cone of influence; dropping assumptions is sound)"""
+        self.assumes.append(formula)
+        if not hasattr(self, "_defs"):
+            self._defs = {}
+        self._defs[formula.get_id()] = var
+
+    def rnd(self, exact, ty, monotone=False):
         """result of a float operation whose exact real value is `exact`"""
         if self.mode == "exact":
             return exact
+        # IEEE operations are functions: the same operation on the same operands gives the same result
+        if not hasattr(self, "_memo"):
+            self._memo = {}
+        key = (ty, exact.get_id())
+        if key in self._memo:
+            return self._memo[key]
         d = self.fresh("rnd")
         u = U64 if ty == "f64" else U32
-        a = zabs(exact)
-        self.assumes.append(z3.And(d <= u * a, d >= -u * a))
+        if monotone and ty == "f64" and getattr(self, "abs_slack", None) is not None:
+            # additions on the position: absolute error bound E for |x| <= 2^19 (the range is an obligation)
+            E = self.abs_slack
+            self.side_cond("position arithmetic stays within +-2^19 (rounding error bound 2^-34)",
+                           z3.And(exact <= 2 ** 19, exact >= -(2 ** 19)))
+            self.define(d, z3.And(d <= E, d >= -E))
+        else:
+            a = zabs(exact)
+            self.define(d, z3.And(d <= u * a, d >= -u * a))
+        if monotone:
+            # rounding is monotone and integers (< 2^53) are representable: floor(x) <= fl(x) <= ceil(x)
+            self.define(d, z3.And(exact + d <= z3.ToReal(zceil(exact)), exact + d >= z3.ToReal(zfloor(exact))))
+        self._memo[key] = exact + d
+        self._keep = getattr(self, "_keep", []) + [exact]      # keep the AST alive so that ids stay unique
         return exact + d
 
     def side_cond(self, label, cond, node=None):
@@ -250,10 +283,17 @@ class Env:
                 x = z3.ToReal(v.t)
                 lim = 2 ** 53 if ty == "f64" else 2 ** 24
                 if self.mode == "slack":
+                    if not hasattr(self, "_memo"):
+                        self._memo = {}
+                    ck = ("cvt", ty, x.get_id())
+                    if ck in self._memo:
+                        return Val(self._memo[ck], ty)
                     # exact below the mantissa width, rounded above
                     d = self.fresh("cvt")
                     u = U64 if ty == "f64" else U32
-                    self.assumes.append(z3.If(zabs(x) <= lim, d == 0, z3.And(d <= u * zabs(x), d >= -u * zabs(x))))
+                    self.define(d, z3.If(zabs(x) <= lim, d == 0, z3.And(d <= u * zabs(x), d >= -u * zabs(x))))
+                    self._memo[ck] = x + d
+                    self._keep = getattr(self, "_keep", []) + [x]
                     return Val(x + d, ty)
                 return Val(x, ty)
             if v.ty == ty:
@@ -266,7 +306,8 @@ class Env:
             if v.ty in FLOAT_TYPES:
                 x = v.t
                 if ty.startswith("u"):
-                    self.side_cond("float->%s cast of a negative value (saturates to 0)" % ty, x > -1, node)
+                    # Rust's float->int `as` saturates (defined, no panic): negative values give 0. Only the upper range
+                    # is an obligation (a saturated huge count would be meaningless).
                     self.side_cond("float->%s cast in range" % ty, x < z3.RealVal(2) ** 63, node)
                     return Val(z3.If(x >= 0, zfloor(x), z3.IntVal(0)), ty)
                 self.side_cond("float->%s cast in range" % ty, z3.And(x < z3.RealVal(2) ** 62, x > -(z3.RealVal(2) ** 62)), node)
@@ -300,19 +341,28 @@ class Env:
             if b.ty != a.ty and b.ty not in ("floatlit",):
                 raise Undecided("mixed float types in %s" % rp.show(e))
             if op == "+":
-                x = a.t + b.t
+                x = z3.simplify(2 * a.t) if a.t.eq(b.t) else a.t + b.t
             elif op == "-":
                 x = a.t - b.t
             elif op == "*":
                 x = a.t * b.t
             elif op == "/":
                 self.side_cond("float division by zero", b.t != 0, e)
-                x = a.t / b.t
+                x = z3.RealVal(0) if self.is_zero(a.t) else a.t / b.t
             else:
                 raise Undecided("float operator %s" % op)
-            # IEEE-exact special cases recognised syntactically
-            if self.mode == "slack" and not self.exact_case(op, e, a, b):
-                x = self.rnd(x, ty)
+            if op in ("+", "-") and self.is_zero(b.t):
+                x = a.t
+            elif op == "+" and self.is_zero(a.t):
+                x = b.t
+            elif op == "*" and (self.is_zero(a.t) or self.is_zero(b.t)):
+                x = z3.RealVal(0)
+            # IEEE-exact special cases: recognised syntactically, an operand that is identically zero, or a result
+            # that is identically zero (x - x)
+            if self.is_zero(x):
+                x = z3.RealVal(0)
+            elif self.mode == "slack" and not self.exact_case(op, e, a, b) and not self.zero_case(op, a, b):
+                x = self.rnd(x, ty, monotone=(op in ("+", "-") and ty == "f64"))
             return Val(x, ty)
         if ty in INT_TYPES or ty == "intlit":
             rty = ty if ty != "intlit" else (b.ty if b.ty != "intlit" else "intlit")
@@ -343,6 +393,21 @@ class Env:
             return Val(x, rty)
         raise Undecided("binary %s on %s" % (op, ty))
 
+    @staticmethod
+    def is_zero(t):
+        st = z3.simplify(t)
+        return z3.is_rational_value(st) and st.numerator_as_long() == 0
+
+    def zero_case(self, op, a, b):
+        """x + 0, x - 0, 0 * x, 0 / x are exact (the zero being a term that simplifies to 0, e.g. t - t)"""
+        if op in ("+", "-") and (self.is_zero(a.t) or self.is_zero(b.t)):
+            return True
+        if op == "*" and (self.is_zero(a.t) or self.is_zero(b.t)):
+            return True
+        if op == "/" and self.is_zero(a.t):
+            return True
+        return False
+
     def exact_case(self, op, e, a, b):
         """x*1, x/1, x+0, x-0 and literal-literal folding are exact; 0.5*x is exact (power of two)."""
         for side in (rp.strip_paren(e[2]), rp.strip_paren(e[3])):
@@ -357,9 +422,65 @@ class Env:
                     return True
                 if op in ("+", "-") and v == 0.0:
                     return True
-        if rp.strip_paren(e[2])[0] == "num" and rp.strip_paren(e[3])[0] == "num":
-            return False
+        # x + x is exact (doubling)
+        if op == "+" and a.t.eq(b.t):
+            return True
+        # x - x.floor() is exact in IEEE arithmetic (the result needs no more significand bits than x)
+        if op == "-":
+            rhs = rp.strip_paren(e[3])
+            if rhs[0] == "mcall" and rhs[2] == "floor" and not rhs[3] and rp.show(rhs[1]) == rp.show(rp.strip_paren(e[2])):
+                return True
+            lhs = rp.strip_paren(e[2])
+            if rhs[0] == "path" and lhs[0] == "path" and rhs[1][0] == lhs[1][0] + "_floor":
+                return True
         return False
+
+    def f32_sum(self, e):
+        """Trusted lemma L-f32sum (DESIGN.md 5): a left-to-right f32 sum of at most 4 addends, each a converted f64/usize
+        value or a quotient of such (at most 3 roundings per addend), deviates from the exact real sum by at most
+        2^-21 * sum|addend| (each addend: relative (1+2^-24)^3-1; three additions: relative 2^-24 on partial sums; no
+        overflow/underflow in the configuration domain).  Returns a fresh real constrained accordingly, or None if `e`
+        is not such a sum."""
+        def addends(x):
+            x = rp.strip_paren(x)
+            if x[0] == "binary" and x[1] == "+":
+                return addends(x[2]) + addends(x[3])
+            return [x]
+        parts = addends(e)
+        if len(parts) < 2 or len(parts) > 4:
+            return None
+        key = ("f32sum", rp.show(e))
+        ex = self.clone()
+        ex.vars = dict(self.vars)
+        ex.mode = "exact"
+        ex.side = []
+        ex.assumes = []
+        vals = []
+        for p_ in parts:
+            try:
+                v = ex.ev(p_)
+            except Undecided:
+                return None
+            if v.ty != "f32":
+                return None
+            vals.append(v.t)
+        # side conditions of the exact evaluation (division by zero ...) still count
+        self.side.extend(ex.side)
+        exact = vals[0]
+        mag = zabs(vals[0])
+        for t in vals[1:]:
+            exact = exact + t
+            mag = mag + zabs(t)
+        if not hasattr(self, "_memo"):
+            self._memo = {}
+        k = ("f32sum", exact.get_id())
+        if k in self._memo:
+            return self._memo[k]
+        x = self.fresh("f32sum")
+        self.define(x, z3.And(x - exact <= z3.Q(1, 2 ** 21) * mag, x - exact >= -z3.Q(1, 2 ** 21) * mag))
+        self._memo[k] = x
+        self._keep = getattr(self, "_keep", []) + [exact]
+        return x
 
     def mcall(self, e):
         recv, name, args = e[1], e[2], e[3]
@@ -368,6 +489,10 @@ class Env:
             return self.opaque[txt]
         if name in self.methods and rp.show(recv) in ("self", "Self"):
             return self.methods[name](self, recv, args, e)
+        if name in ("floor", "ceil") and self.mode == "slack":
+            m = self.f32_sum(recv)
+            if m is not None:
+                return Val(z3.ToReal(zfloor(m) if name == "floor" else zceil(m)), "f32")
         if name in ("floor", "ceil", "round", "abs", "sqrt", "min", "max", "is_finite", "is_nan", "clamp"):
             v = self.ev(recv)
             if v.ty == "floatlit":
@@ -417,7 +542,7 @@ class Env:
         name = rp.show(lhs)
         if name in self.vars:
             old = self.vars[name]
-            if val.ty in ("floatlit", "intlit") and old.ty not in ("tuple",):
+            if val.ty in ("floatlit", "intlit") and old.ty not in ("tuple", "uninit"):
                 val = Val(val.t, old.ty)
         self.vars[name] = val
 
@@ -467,6 +592,14 @@ class Env:
             return
         if k == "if":
             c = self.ev(e[1])
+            # `if cond { return Err(..); }`: under the contract's precondition the error exit is not taken (obligation)
+            tb = e[2]
+            last = tb[1][-1] if tb[1] else None
+            lastx = rp.strip_paren(last[1]) if (last is not None and last[0] == "expr") else (rp.strip_paren(tb[2]) if tb[2] is not None else None)
+            if e[3] is None and lastx is not None and lastx[0] == "return":
+                self.side_cond("valid arguments do not take the error exit `if %s`" % rp.show(e[1])[:60], z3.Not(c.t), e)
+                self.path.append(z3.Not(c.t))
+                return
             a = self.clone()
             a.path.append(c.t)
             for st in e[2][1]:
@@ -514,6 +647,40 @@ class Env:
         if k == "unsafe":
             self.exec_expr(e[1])
             return
+        if k == "for":
+            # only loops over literal integer ranges (optionally .enumerate()) are executed: they are unrolled
+            pat, it, body = e[1], rp.strip_paren(e[2]), e[3]
+            enum = False
+            if it[0] == "mcall" and it[2] == "enumerate" and not it[3]:
+                enum = True
+                it = rp.strip_paren(it[1])
+
+            def lit(x):
+                x = rp.strip_paren(x)
+                if x[0] == "num":
+                    return int(x[1], 0)
+                if x[0] == "unary" and x[1] == "-" and rp.strip_paren(x[2])[0] == "num":
+                    return -int(rp.strip_paren(x[2])[1], 0)
+                raise Undecided("loop bound is not a literal: %s" % rp.show(x))
+            if it[0] != "range" or it[1] is None or it[2] is None:
+                raise Undecided("loop over %s in extracted straight-line code" % rp.show(it)[:60])
+            a, b = lit(it[1]), lit(it[2]) + (1 if it[3] else 0)
+            if b - a > 16:
+                raise Undecided("literal loop too long to unroll")
+            names = pat[2]
+            for i, val in enumerate(range(a, b)):
+                if enum:
+                    if len(names) != 2:
+                        raise Undecided("enumerate pattern %s" % pat[1])
+                    self.vars[names[0]] = Val(z3.IntVal(i), "usize")
+                    self.vars[names[1]] = Val(z3.IntVal(val), "isize")
+                else:
+                    self.vars[names[0]] = Val(z3.IntVal(val), "isize")
+                for st in body[1]:
+                    self.exec_stmt(st)
+                if body[2] is not None:
+                    self.exec_expr(body[2])
+            return
         raise Undecided("expression statement %s" % rp.show(e)[:100])
 
 
@@ -538,12 +705,79 @@ def check_valid(assumptions, goal, timeout_ms=30000, nl_hint=False):
         s.add(a)
     s.add(z3.Not(goal))
     r = s.check()
+    if r == z3.unknown:
+        # one retry with another seed: non-linear queries close to the limit are seed-sensitive
+        s2 = z3.Solver()
+        s2.set("timeout", timeout_ms)
+        s2.set("random_seed", 7)
+        z3.set_param("smt.random_seed", 7)
+        for a in assumptions:
+            s2.add(a)
+        s2.add(z3.Not(goal))
+        r = s2.check()
+        z3.set_param("smt.random_seed", 0)
+        s = s2
     dt = time.time() - t0
     if r == z3.unsat:
         return "valid", None, dt
     if r == z3.sat:
         return "invalid", s.model(), dt
     return "unknown", None, dt
+
+
+def free_vars(t, cache={}):
+    """names of the uninterpreted constants of a term (cached by AST id)"""
+    k = t.get_id()
+    if k in cache:
+        return cache[k]
+    out = set()
+    todo = [t]
+    seen = set()
+    while todo:
+        x = todo.pop()
+        i = x.get_id()
+        if i in seen:
+            continue
+        seen.add(i)
+        if z3.is_const(x) and x.decl().kind() == z3.Z3_OP_UNINTERPRETED:
+            out.add(x.decl().name())
+        else:
+            todo.extend(x.children())
+    cache[k] = out
+    cache.setdefault("_keep", []).append(t)
+    return out
+
+
+def cone(assumptions, defs, goal_terms):
+    """Assumptions relevant to the goal: every untagged assumption, plus the tagged ones (definitions of fresh
+    variables) whose variable is reachable from the goal / the untagged assumptions."""
+    plain, tagged = [], []
+    for a in assumptions:
+        dv = defs.get(a.get_id())
+        if dv is None:
+            plain.append(a)
+        else:
+            tagged.append((dv.decl().name(), a))
+    rel = set()
+    for t in goal_terms:
+        rel |= free_vars(t)
+    for a in plain:
+        rel |= free_vars(a)
+    inc = []
+    changed = True
+    pending = list(tagged)
+    while changed:
+        changed = False
+        rest = []
+        for (dv, a) in pending:
+            if dv in rel:
+                inc.append(a)
+                rel |= free_vars(a)
+                changed = True
+            else:
+                rest.append((dv, a))
+        pending = rest
+    return plain + inc
 
 
 def model_dict(model, limit=60):
